@@ -1026,6 +1026,28 @@ func (s *Sim) ReleaseFirst() bool {
 	return true
 }
 
+// ReleaseTask releases the named task from the yield point it is parked at, without consulting the chooser (scenarios
+// whose schedule is a generated plan rather than a sequence of free choices); it reports whether the task was parked.
+func (s *Sim) ReleaseTask(name string) bool {
+	s.mu.Lock()
+	var p *parked
+	for _, q := range s.parkedL {
+		if q.task.name == name && (p == nil || q.seq < p.seq) {
+			p = q
+		}
+	}
+	s.mu.Unlock()
+	if p == nil {
+		return false
+	}
+	s.step++
+	s.Event("release %s @%s %s", p.task.name, p.class, p.label)
+	s.unpark(p)
+	s.sleepDriver(time.Microsecond)
+	close(p.ch)
+	return true
+}
+
 // LinksIdle reports whether nothing is in flight on any connection.
 func (s *Sim) LinksIdle() bool {
 	s.mu.Lock()
